@@ -24,14 +24,18 @@ def level : Expr → Nat
   | .compare .in_ _ _ => 8
   | _ => 9
 
-inductive Mode | minimal | full deriving DecidableEq, Repr
+/-- `minimal` / `full`: the two reference parenthesisations; `printer`: the rule odata_query's own
+    printer (roundtrip.py) follows — the minimal rule, plus a path or a call on the left of `in` -/
+inductive Mode | minimal | full | printer deriving DecidableEq, Repr
 
 /-- where optional whitespace is written -/
 structure Style where
   afterMinus : Bool := false
   insideParens : Bool := false
-  aroundComma : Bool := false
-  aroundColon : Bool := false
+  beforeComma : Bool := false
+  afterComma : Bool := false
+  beforeColon : Bool := false
+  afterColon : Bool := false
   deriving DecidableEq, Repr
 
 def ws? (b : Bool) : List Tok := if b then [.ws] else []
@@ -41,12 +45,19 @@ def paren (sty : Style) (ts : List Tok) : List Tok :=
 
 /-- does the operand need parentheses? `strict = true` for the right operand of a (left-associative)
     binary operator -/
+def isAttrOrCall : Expr → Bool
+  | .attr _ _ => true
+  | .call _ _ => true
+  | _ => false
+
 def needsParen (mode : Mode) (parentLevel : Nat) (strict : Bool) (child : Expr) : Bool :=
   match mode with
   | .full => level child < 9
   | .minimal => if strict then level child ≤ parentLevel else level child < parentLevel
+  | .printer => (if strict then decide (level child ≤ parentLevel) else decide (level child < parentLevel))
+                  || (parentLevel == 8 && !strict && isAttrOrCall child)
 
-def commaToks (sty : Style) : List Tok := ws? sty.aroundComma ++ [.comma] ++ ws? sty.aroundComma
+def commaToks (sty : Style) : List Tok := ws? sty.beforeComma ++ [.comma] ++ ws? sty.afterComma
 
 mutual
 def printToks (sty : Style) (mode : Mode) : Expr → List Tok
@@ -73,14 +84,17 @@ def printToks (sty : Style) (mode : Mode) : Expr → List Tok
   | .coll ow op .none => printToks sty mode ow ++ [.slash, (if op = .any then .any else .all), .lp] ++ ws? sty.insideParens ++ [.rp]
   | .coll ow op (.some v b) =>
       printToks sty mode ow ++ [.slash, (if op = .any then .any else .all)] ++
-        paren sty ([.ident v] ++ ws? sty.aroundColon ++ [.colon] ++ ws? sty.aroundColon ++ printToks sty mode b)
+        paren sty ([.ident v] ++ ws? sty.beforeColon ++ [.colon] ++ ws? sty.afterColon ++ printToks sty mode b)
 /-- an operand, parenthesised when the table says so -/
 def operand (sty : Style) (mode : Mode) (parentLevel : Nat) (strict : Bool) : Expr → List Tok
   | e => if needsParen mode parentLevel strict e then paren sty (printToks sty mode e) else printToks sty mode e
-/-- `(a, b, c)` / `(a,)` -/
+/-- `(a, b, c)` / `(a,)` — the trailing comma of a singleton is followed by the closing parenthesis
+    (with the inside-parentheses whitespace, not the after-comma one) -/
 def printList (sty : Style) (mode : Mode) : Exprs → List Tok
   | .nil => [.lp, .rp]
-  | .cons a .nil => [.lp] ++ ws? sty.insideParens ++ printToks sty mode a ++ commaToks sty ++ [.rp]
+  | .cons a .nil =>
+      [.lp] ++ ws? sty.insideParens ++ printToks sty mode a ++ ws? sty.beforeComma ++ [.comma] ++
+        ws? sty.insideParens ++ [.rp]
   | xs => paren sty (printArgs sty mode xs)
 def printArgs (sty : Style) (mode : Mode) : Exprs → List Tok
   | .nil => []
